@@ -21,6 +21,8 @@
 (*                   area of the polygon                                   *)
 (*   ...EdgeInPlane  the same two clauses for the degenerate placements    *)
 (*                   where an edge of a cell lies in the polygon's plane   *)
+(*   ...VertexTouch  the same two clauses for polygons lying in one closed *)
+(*                   cell with exactly one vertex on its boundary          *)
 (***************************************************************************)
 EXTENDS Judge, Clip
 
@@ -66,8 +68,18 @@ PiecesInside ==
           /\ \A j \in 1..Len(vs) : InAll(I.poly, cell, vs[j], O.m)
           /\ \A j \in 1..Len(vs) : InAll(I.poly, cell, Mid2(vs[j], vs[NextI(j, Len(vs))]), 2 * O.m)
 AreaConserved == C.ok /\ O.x /\ SumAreas(PrimN(I.poly), O.pieces, 1) = O.m * O.m * AbsV(AreaN(PrimN(I.poly), I.poly))
-PolyClipInside == Check("PolyClipInside", Is("polygons_by_polyhedron") /\ PolyFamily /\ ~EdgeInPlane => PiecesInside)
-PolyClipArea == Check("PolyClipArea", Is("polygons_by_polyhedron") /\ PolyFamily /\ ~EdgeInPlane => AreaConserved)
+\* class split: the polygon lies in one closed cell and touches its boundary with exactly one vertex
+OnCellBoundary(cell, x) == InCellS(cell, x, 1) /\ \E f \in 1..Len(cell) : SideOf(cell[f], x, 1) = 0
+SingleVertexTouch == \E c \in 1..Len(I.cells) :
+                        /\ \A i \in 1..Len(I.poly) : InCellS(I.cells[c], I.poly[i], 1)
+                        /\ Cardinality({i \in 1..Len(I.poly) : OnCellBoundary(I.cells[c], I.poly[i])}) = 1
+Regular == ~EdgeInPlane /\ ~SingleVertexTouch
+PolyClipInside == Check("PolyClipInside", Is("polygons_by_polyhedron") /\ PolyFamily /\ Regular => PiecesInside)
+PolyClipArea == Check("PolyClipArea", Is("polygons_by_polyhedron") /\ PolyFamily /\ Regular => AreaConserved)
 PolyClipInsideEdgeInPlane == Check("PolyClipInsideEdgeInPlane", Is("polygons_by_polyhedron") /\ PolyFamily /\ EdgeInPlane => PiecesInside)
 PolyClipAreaEdgeInPlane == Check("PolyClipAreaEdgeInPlane", Is("polygons_by_polyhedron") /\ PolyFamily /\ EdgeInPlane => AreaConserved)
+PolyClipInsideVertexTouch == Check("PolyClipInsideVertexTouch",
+  Is("polygons_by_polyhedron") /\ PolyFamily /\ ~EdgeInPlane /\ SingleVertexTouch => PiecesInside)
+PolyClipAreaVertexTouch == Check("PolyClipAreaVertexTouch",
+  Is("polygons_by_polyhedron") /\ PolyFamily /\ ~EdgeInPlane /\ SingleVertexTouch => AreaConserved)
 =============================================================================
